@@ -65,7 +65,7 @@ _SAFE_TARGET = {"a": "qa", "b/c": "q/c"}
 @st.composite
 def spec_case(draw, tier="quick"):
     n_max = 9 if tier == "quick" else 14
-    spec = draw(hist.history_spec(n_min=3, n_max=n_max, merges=True,
+    spec = draw(hist.history_spec(n_min=4, n_max=n_max, merges=True,
                                   ghosts=True, symlinks=True, execs=True,
                                   max_parents=3, ops_max=3, base_max=5))
     # post-process: adopt / echo ops (content + exec only, so every op drawn
@@ -117,6 +117,18 @@ def spec_case(draw, tier="quick"):
                 if cands:
                     f = draw(st.sampled_from(cands))
                     extra.append(["modify", f, cmod[f]["content"]])
+        if rev["parents"] and draw(st.integers(0, 1)) == 0:
+            # touch one of the oldest files: parallel lines of development
+            # then change the same file id (per-file forks)
+            old = sorted(f for f in m if f in models["r0"] and
+                         m[f]["kind"] == "file")[:2]
+            if old:
+                f = draw(st.sampled_from(old))
+                c = draw(st.sampled_from(["same\n", "alpha\n", "beta\n"]))
+                if draw(st.integers(0, 3)) == 0:
+                    extra.append(["chmod", f, not m[f]["exec"]])
+                else:
+                    extra.append(["modify", f, c])
         tm.apply_ops(m, extra)
         rev["ops"] = rev["ops"] + extra
         models[rid] = m
@@ -154,7 +166,7 @@ _line = st.sampled_from(tm.LINES + ["same\n", "x1\n", "x2\n"])
 def _lop(draw, ctr):
     k = draw(st.sampled_from(["line", "line", "line", "mod", "chmod", "rename",
                               "add", "delete", "kind", "line"]))
-    idx = st.integers(0, 7)
+    idx = st.sampled_from([0, 0, 0, 1, 1, 2, 3, 4, 5, 6])
     if k == "line":
         return ["line", draw(idx), draw(st.integers(0, 8)), draw(_line)]
     if k == "mod":
@@ -175,7 +187,7 @@ def _lop(draw, ctr):
     if kind == "file":
         content = draw(tm.text_strategy())
     elif kind == "symlink":
-        content = draw(st.sampled_from(["a", "nowhere"]))
+        content = draw(st.sampled_from(["qa", "nowhere"]))
     return ["add", "n%d-id" % ctr[0], draw(st.integers(0, 3)),
             draw(st.sampled_from(["a", "b", "c", "n1", "n2", "n3"])), kind,
             content, draw(st.booleans()) if kind == "file" else False]
@@ -188,6 +200,9 @@ def script_case(draw, tier="quick"):
     base = tm.draw_ops(draw, m, ids, n_min=2, n_max=5,
                        kinds=["add", "add", "add", "add_dir"], symlinks=True,
                        execs=True, odd_names=False)
+    for op in base:
+        if op[4] == "symlink":
+            op[5] = _SAFE_TARGET.get(op[5], op[5])
     # at least two multi-line files so that both sides can change one file
     # without a text conflict
     for i in range(2):
@@ -198,24 +213,69 @@ def script_case(draw, tier="quick"):
         base.append(op)
     nbr = draw(st.sampled_from([2, 2, 3]))
     ctr = [0]
-    lops = st.lists(_lop(ctr), min_size=0, max_size=3)
-    n = draw(st.integers(3, 8 if tier == "quick" else 13))
+    n = draw(st.integers(4, 9 if tier == "quick" else 14))
     steps = []
     b = st.integers(0, nbr - 1)
+    # approximate simulation of the DAG (assumes every commit / merge goes
+    # through) so that merges are drawn only where they are not pointless
+    g = {"n0": ()}
+    tips = ["n0"] * nbr
+    cnt = [0]
+
+    def node(parents):
+        cnt[0] += 1
+        g["n%d" % cnt[0]] = tuple(parents)
+        return "n%d" % cnt[0]
+
+    def back_of(rev, k):
+        for _ in range(k):
+            if not g[rev]:
+                break
+            rev = g[rev][0]
+        return rev
+
     for _ in range(n):
         k = draw(st.sampled_from(
-            ["edit", "edit", "edit", "twin", "merge", "merge", "merge",
-             "merge", "cherry", "pull"]))
-        if k == "edit":
-            steps.append(["edit", draw(b), draw(lops)])
-        elif k == "twin":
-            steps.append(["twin", draw(b), draw(b), draw(
-                st.lists(_lop(ctr), min_size=1, max_size=2))])
-        elif k == "pull":
-            steps.append(["pull", draw(b), draw(b)])
+            ["edit", "edit", "twin", "merge", "merge", "merge",
+             "merge", "merge", "cherry", "pull"]))
+        if k in ("merge", "cherry", "pull", "twin"):
+            dst = draw(b)
+            src = draw(b)
+            if src == dst:
+                src = (src + 1) % nbr
+        if k == "merge":
+            back = draw(st.sampled_from([0, 0, 0, 1, 2]))
+            to = back_of(tips[src], back)
+            if to in gm.ancestry(g, tips[dst]):
+                to = tips[src]
+                back = 0
+            if to in gm.ancestry(g, tips[dst]):
+                k = "edit-src"
         elif k == "cherry":
-            steps.append(["cherry", draw(b), draw(b),
-                          draw(st.sampled_from([0, 0, 1]))])
+            back = draw(st.sampled_from([0, 0, 1]))
+            to = back_of(tips[src], back)
+            if not g[to] or to in gm.ancestry(g, tips[dst]):
+                k = "edit-src"
+        elif k == "pull":
+            if tips[dst] == tips[src] or \
+                    tips[dst] not in gm.ancestry(g, tips[src]):
+                k = "edit-src"
+        if k in ("edit", "edit-src"):
+            br = src if k == "edit-src" else draw(b)
+            steps.append(["edit", br, draw(
+                st.lists(_lop(ctr), min_size=1, max_size=3))])
+            tips[br] = node([tips[br]])
+        elif k == "twin":
+            steps.append(["twin", dst, src, draw(
+                st.lists(_lop(ctr), min_size=1, max_size=2))])
+            tips[dst] = node([tips[dst]])
+            tips[src] = node([tips[src]])
+        elif k == "pull":
+            steps.append(["pull", dst, src])
+            tips[dst] = tips[src]
+        elif k == "cherry":
+            steps.append(["cherry", dst, src, back])
+            tips[dst] = node([tips[dst]])
         else:
             rv = draw(st.sampled_from(["none", "none", "some", "some", "all"]))
             if rv == "none":
@@ -225,12 +285,12 @@ def script_case(draw, tier="quick"):
             else:
                 revert = draw(st.lists(st.integers(0, 9), min_size=1,
                                        max_size=3))
-            steps.append(["merge", draw(b), draw(b),
-                          draw(st.sampled_from([0, 0, 0, 1, 2])),
+            steps.append(["merge", dst, src, back,
                           draw(st.sampled_from(["keep", "keep", "abort"])),
                           revert,
                           draw(st.lists(_lop(ctr), min_size=0, max_size=2))
                           if draw(st.integers(0, 2)) == 0 else []])
+            tips[dst] = node([tips[dst], to])
     return {"fmt": draw(st.sampled_from(FORMATS)), "nbr": nbr, "base": base,
             "steps": steps}
 
